@@ -110,11 +110,8 @@ func (fv *FnV) callUser(st *State, call *ast.CallExpr, key string, o *types.Func
 		if i < np {
 			pt = osig.Params().At(i).Type()
 		}
-		if osig.Variadic() && i >= np-1 {
-			if call.Ellipsis == token.NoPos {
-				fv.unsupported(call, "variadic call without ...")
-				return fv.havocResults(st, sig)
-			}
+		if osig.Variadic() && i >= np-1 && call.Ellipsis == token.NoPos {
+			break // packed below
 		}
 		fv.pushSubst(subst)
 		var v Val
@@ -139,6 +136,26 @@ func (fv *FnV) callUser(st *State, call *ast.CallExpr, key string, o *types.Func
 		}
 		args = append(args, ai)
 	}
+	if osig.Variadic() && call.Ellipsis == token.NoPos {
+		// pack the trailing arguments into a slice
+		vt := fv.smt.resolve(osig.Params().At(np - 1).Type())
+		sl := vt.Underlying().(*types.Slice)
+		es := fv.smt.sortOf(sl.Elem())
+		arr := fmt.Sprintf("((as const (Array Int %s)) %s)", es, fv.smt.zeroOf(sl.Elem()))
+		cnt := 0
+		for i := np - 1; i < len(call.Args); i++ {
+			fv.pushSubst(subst)
+			v := fv.evalAs(st, call.Args[i], sl.Elem())
+			fv.popSubst()
+			arr = fmt.Sprintf("(store %s %d %s)", arr, cnt, v.T)
+			cnt++
+		}
+		nilT := "false"
+		if cnt == 0 {
+			nilT = "true"
+		}
+		args = append(args, argInfo{val: fv.nameVal("va", fv.mkSlice(vt, fmt.Sprintf("%d", cnt), arr, nilT))})
+	}
 	if st.dead {
 		return fv.havocResults(st, sig)
 	}
@@ -150,10 +167,11 @@ func (fv *FnV) callUser(st *State, call *ast.CallExpr, key string, o *types.Func
 		}
 	}
 	inline := false
-	if fc != nil {
+	if fc != nil && fc.hasSpec() {
 		inline = fc.Inline
 	} else {
-		inline = fv.autoInline(key)
+		// no contract, or a bare safety stub: small loop-free helpers are expanded in place
+		inline = fv.autoInline(key) || (fc != nil && fc.Inline)
 	}
 	if inline && !onStack && len(fv.frames) < maxInlineDepth && !fv.spec {
 		return fv.inlineCall(st, call, key, fd, sig, args, subst)
@@ -485,15 +503,22 @@ type FuncResult struct {
 	Called     []string
 	Decls      []string
 	Contract   *FuncContract
+	Subst      map[*types.TypeParam]types.Type
 }
 
 // VerifyFunc generates the obligations of one function (one instantiation).
-func VerifyFunc(prog *Program, smt *SMT, eff *Effects, key string, fc *FuncContract, subst map[*types.TypeParam]types.Type, instName string) *FuncResult {
+func VerifyFunc(prog *Program, smt *SMT, eff *Effects, key string, fc *FuncContract, subst map[*types.TypeParam]types.Type, instName string, noPatterns ...bool) *FuncResult {
 	fd := prog.Funcs[key]
 	fv := &FnV{prog: prog, smt: smt, eff: eff, key: key, fc: fc, fd: fd, tags: map[string]bool{}, counters: map[string]int{},
 		inlined: map[string]bool{}, calledContracts: map[string]bool{}, instName: instName}
+	if len(noPatterns) > 0 && noPatterns[0] {
+		fv.noPatterns = true
+	}
 	if fc != nil && fc.Arith == "wrap" {
 		fv.wrap = true
+	}
+	if fc != nil && fc.PanicFree {
+		fv.noF2I = true
 	}
 	if fc != nil && fc.Arith == "wrapu" {
 		fv.wrapUnsigned = true
@@ -626,7 +651,7 @@ func VerifyFunc(prog *Program, smt *SMT, eff *Effects, key string, fc *FuncContr
 			fv.vcs[len(fv.vcs)-1].MustFail = true
 		}
 	}
-	res := &FuncResult{Key: key, Inst: instName, VCs: fv.vcs, Outside: fv.outside, Decls: fv.decls, Contract: fc}
+	res := &FuncResult{Key: key, Inst: instName, VCs: fv.vcs, Outside: fv.outside, Decls: fv.decls, Contract: fc, Subst: subst}
 	for t := range fv.tags {
 		res.Tags = append(res.Tags, t)
 	}
